@@ -10,6 +10,8 @@ Static clauses (typestate: "a ref enters `ignore` before the selector is used ag
   I-DIAG      binding keys: blocks are bound under lower-cased names, so two input-like blocks whose keys collide must be
               rejected by the analyzer - the duplicate-definition diagnostic has to be raised somewhere
   NOFILTER    compile_inputs flattens the bound sets without de-duplicating or filtering adaptors
+  (forms)     S-IGNORE follows the selection into an awaited private helper, accepts a growth of the taken refs in a loop that is
+              only left when its iterator is exhausted, and reports a growth inside a short-circuiting adaptor's closure
 Not decided: that the store returns what it was asked for (trusted interface).
 """
 import re
